@@ -111,6 +111,9 @@ def run(tier, seed):
     # the same while other threads issue operations that draw from the counter and then fail (monitor / unlink towards a node whose
     # connection is not connected): PidAlloc!RefFail -- what a failed operation drew is not handed out again
     scen.append({"kind": "bulk_refs", "threads": 2, "total": 200000, "start_ctr": 5, "failing": True})
+    # across the wrap of the 32-bit word counter: the words go round, the references stay distinct
+    scen.append({"kind": "bulk_refs", "threads": 1, "total": 12, "start_ctr": 2 ** 32 - 4})
+    scen.append({"kind": "bulk_refs", "threads": 3, "total": 60000, "start_ctr": 2 ** 32 - 9000})
     # the creation changes between bursts of allocations and comes back to values that were in force before (PidAlloc!SetCreation)
     for i, (th, sid) in enumerate(((1, 1), (2, 5), (3, MAXID - 2), (1, MAXID))):
         scen.append({"kind": "creations", "threads": th, "allocs": 2, "start_id": sid, "start_serial": 0, "creation": 1, "schedule": [], "seed": seed + i,
